@@ -10,4 +10,6 @@ CONSTANTS
   BackupSingleStep = TRUE
   StreamEndDetected = TRUE
   AbortAfterPartial = FALSE
+  EndMarkerOnlyOnSuccess = TRUE
+  CopyErrorReturned = TRUE
 INVARIANTS TypeOK CutIsError Consistent Complete GateReleased
